@@ -51,6 +51,9 @@ structure Config where
   present : List Bool        -- [caller present, acceptor present]
   stoppable : List Bool      -- [caller's receiver has a stop token, acceptor's …]
   scripts : List (List POp)  -- controller scripts, controller 0 = T0
+  honourStop : Bool := true  -- the receivers' scheduler completes a schedule operation with set_done when
+                             -- the stop token reports a request (inline_scheduler, manual_event_loop);
+                             -- false: it ignores the token (always set_value)
 
 /-- party pcs: 0 call, 1 register cb, 2 CAS loop, 3 rendezvous (first resume), 4 second resume,
     6 load sync_complete, 7 fetch_or(started), 8 stop(): CAS un-claim, 9 stop(): complete,
@@ -173,7 +176,7 @@ def stepP (cfg : Config) (s : St) (who : Nat) : Option (Lbl × St) :=
   | 11 =>
     if p.sched then
       -- the schedule operation runs: it looks at the (final receiver's) stop token FIRST
-      let isDone := (stp && p.stopReq) || p.cancelled
+      let isDone := (cfg.honourStop && stp && p.stopReq) || p.cancelled
       let s1 := if p.count ≥ 1 then flag s 1 else s
       let s2 := if isDone && !p.stopReq then flag s1 3 else s1
       let s3 := if !isDone && who = 1 && p.payload = 0 then flag s2 2 else s2
@@ -328,8 +331,13 @@ def cfgTryAccept : Config :=
   { present := [true, false], stoppable := [false, false],
     scripts := [[.joinCtl, .unlessServed, .awaitWord 1, .tryAccept], [.tryAccept]] }
 
+/-- like `cfgCancelCall`, but the scheduler ignores stop tokens: the forwarder always reaches
+    forward_set_value, so `cancelled_` alone decides between value and done -/
+def cfgCancelCallPlain : Config := { cfgCancelCall with honourStop := false }
+
 def configs : List (String × Config) :=
   [("pass_rendezvous", cfgRendezvous), ("pass_cancel_call", cfgCancelCall), ("pass_cancel_accept", cfgCancelAccept),
+   ("pass_cancel_call_plain", cfgCancelCallPlain),
    ("pass_try_call", cfgTryCall), ("pass_try_accept", cfgTryAccept)]
 
 end Unifex.Proto.AsyncPass
